@@ -614,6 +614,16 @@ def c05(ctx):
         if x["status"] != "invariant":
             raise Broken("binding self-test: StreamWireTrace accepted a gate reading an unwritten temporary (%s)" % x["status"])
         ctx.cov.setdefault("binding_selftest", {})["stale-temporary-read"] = x["status"]
+    # (G) programs generated from Mpcl.tla (the C03 corpus: arrays, structs, matrices, loops, calls, early returns), in both modes
+    mcases = mpcl_cases(ctx, "mpcl-gen-c05a", "{3, 8}", 6, 1500 if thorough else 120, limit=4000 if thorough else 200,
+                        kinds='{"arr", "mat", "struct", "bin", "lit"}')
+    mcases += mpcl_cases(ctx, "mpcl-gen-c05b", "{8, 13}", 7, 1500 if thorough else 120, limit=4000 if thorough else 200)
+    mf = os.path.join(ctx.tmp, "c05mpcl.ndjson")
+    write_ndjson(mf, mcases)
+    mres = os.path.join(ctx.tmp, "c05mpclres.ndjson")
+    ctx.run_vh(["c05", "mpcl", mf, mres], timeout=3400)
+    ctx.absorb(mres)
+    ctx.cov["mpcl_programs_streamed"] = len(mcases)
     # (G) abstract SSA programs enumerated from Stream.tla, rendered as MPCL and run in both modes
     g = ctx.tlc("StreamGen", "Stream_gen.cfg", mode="sim", workers=1, sim="num=%d" % (3000 if thorough else 300), depth=7,
                 name="stream-gen", timeout=3000, cfg_text=STREAM_GEN_CFG % 4)
